@@ -691,6 +691,25 @@ def d8_wiring_and_dispatch(chk, repo):
         chk.ob("mesh.Mesh._sel_convert_input::range-has-two-reals", okp and oke, "C07.D8",
                "a range must consist of exactly two real numbers (ValueError / TypeError otherwise)", s.f)
         # no value -> the central cell
-        none_branch = [st for st in s.stmts() if isinstance(st, ast.If) and s.eq(s.ev.term(st.test, at=st), s.spec("R is not None", env={"R": rng[1]}))]
-        chk.ob("mesh.Mesh._sel_convert_input::default-is-centre", len(none_branch) == 1 and bool(none_branch[0].orelse), "C07.D8",
+        # (two-way alternatives are read in their positive orientation: `if R is None: <default> else: <given>`)
+        none_branch = [st for st in s.stmts() if isinstance(st, ast.If) and st.orelse and
+                       (s.eq(s.ev.term(st.test, at=st), s.spec("R is None", env={"R": rng[1]})) or
+                        s.eq(s.ev.term(st.test, at=st), s.spec("R is not None", env={"R": rng[1]})))]
+        okd = False
+        if len(none_branch) == 1:
+            nb = none_branch[0]
+            blk = nb.body if s.eq(s.ev.term(nb.test, at=nb), s.spec("R is None", env={"R": rng[1]})) else nb.orelse
+            vals = [s.term(x.value, at=x) for x in walk_stmts(blk) if isinstance(x, ast.Assign)]
+            def ends_in_centre(t_, fn):
+                h_ = s.ctx.head_of(t_)
+                if not (h_ and h_[0] == "sub"):
+                    return False
+                c_ = decode_call(s.ctx, s.ctx.args_of(t_)[0])
+                return bool(c_ and c_[0] == fn)
+            sel_ok = any(ends_in_centre(t_, "Mesh.index2point") and
+                         s.eq(s.ctx.args_of(t_)[0], s.spec("self.index2point(self.point2index(self.region.center))")) for t_ in vals)
+            idx_ok = any(ends_in_centre(t_, "Mesh.point2index") and
+                         s.eq(s.ctx.args_of(t_)[0], s.spec("self.point2index(self.region.center)")) for t_ in vals)
+            okd = sel_ok and idx_ok
+        chk.ob("mesh.Mesh._sel_convert_input::default-is-centre", okd, "C07.D8",
                "without a value the plane through the region's centre is selected", s.f)
